@@ -236,6 +236,8 @@ def build_log(part, plan, rng):
                 if inner is not None:
                     raw = kwire.encode_wrapper(msgs, mg, inner=inner)
             part.append_prebuilt(msgs, seg["magic"], True, raw)
+            if seg.get("holes") and seg["magic"] == 1 and raw is None:
+                part.entries[-1].rel0 = rng.choice([0, 1, 4])
         else:
             part.append_prebuilt(msgs, seg["magic"], False)
         off = part.leo
@@ -417,8 +419,9 @@ def _run(w, plan):
                     if e["pid"] == inc.pid and e["served"][0]["error"] == E_OFFSET_OUT_OF_RANGE:
                         oor_seq = e["logseq"]
                         break
+                floor = base + cfg["precommit"] if cfg.get("precommit") is not None else -1  # an earlier owner's progress
                 rec["bad_below"] = sorted(set(o for ss in inc.sessions[first:] for p in ss["procs"] if oor_seq < p["seq"] < horizon
-                                              for o in p["offsets"] if o <= pl[0].offset and o not in okset))
+                                              for o in p["offsets"] if floor < o <= pl[0].offset and o not in okset))
             if s["stopped"]:
                 res.violate("C13", "C13:client-request-after-stop:%s" % rec["name"], "consumer issued %s after stop() returned" % rec["name"], sim)
 
@@ -504,7 +507,9 @@ def _run(w, plan):
                 # the application's own work was cancelled (a watchdog, an inner operation): a failure like any other
                 finish(False)
                 res.probe("processor_failed_with_cancelled_error")
-                d.errback(CancelledError())
+                exc = CancelledError()
+                exc.injected_by_harness = True
+                d.errback(exc)
             else:
                 finish(True)
                 d.callback(None)
@@ -842,12 +847,13 @@ def _oracles(w, plan, res, incs, part, state, corrupted, live_tail):
                     break
                 if off in corrupt_offsets and any(e.corrupt or not e.heal for e in corrupted if any(mm.offset == off for mm in e.msgs)):
                     res.violate("C12", "C12:message-from-corrupted-entry-delivered", "offset %d is inside an entry whose checksummed bytes were altered" % off)
-                if prev is not None and prev[3] is not rec or (prev is not None and off <= prev[0]):
-                    # the offset-reset policy firing (broker answered out-of-range in between) is a permitted discontinuity
-                    t0 = prev[3]["t"]
-                    t1 = rec["t"]
-                    reset = cc["reset"] is not None and any(t0 <= t <= t1 and pid == inc.pid for t, _q, pid in oor_events)
-                    if reset:
+                if prev is not None and (off <= prev[0] or any(prev[0] < x < off for x in offsets_sorted)):
+                    # the offset-reset policy firing is a permitted discontinuity. The out-of-range answer may pre-date
+                    # the previous delivery (a reply parked behind slow processing), so it is matched by count: each
+                    # discontinuity consumes out-of-range answers served to this consumer in this session so far.
+                    served_oor = sum(1 for t, q, pid in oor_events if pid == inc.pid and q >= s["seq"] and t <= rec["t"])
+                    if cc["reset"] is not None and served_oor > s.get("oor_used", 0):
+                        s["oor_used"] = served_oor
                         res.probe("reset_policy_fired")
                         prev = (off, key, val, rec)
                         continue
@@ -1019,7 +1025,9 @@ def _check_c13(w, res, inc, s, cc):
         v = sw.value
         cancelled = isinstance(v, CancelledError) or (isinstance(v, FailedPayloadsError) and any(
             isinstance(f.value, CancelledError) for _p, f in v.args[1]))
-        if cancelled and (s.get("start_fire_in_stop") or s["shutdown_called"] or s["stopped"]):
+        if getattr(v, "injected_by_harness", False):
+            res.probe("start_failed_with_the_processors_own_cancellation")
+        elif cancelled and (s.get("start_fire_in_stop") or s["shutdown_called"] or s["stopped"]):
             how = "during-stop" if s.get("start_fire_in_stop") else ("shutdown" if s["shutdown_called"] else "after-stop")
             res.violate("C13", "C13:start-deferred-result:cancellation-caused-by-own-stop:%s:%s" % (how, type(v).__name__),
                         "start Deferred failed with %s although the consumer was being stopped by the application" % type(v).__name__)
